@@ -156,10 +156,10 @@ func fc(path string, core []string, menus ...[]string) field {
 // topFields are the substitutable top-level members (all base events).
 func topFields() []field {
 	return []field{
-		fc("type", []string{`""`, `"m.room.member"`, `"m.room.create"`, `"m.room.power_levels"`}, kindMenu, []string{`"m.room.member"`, `"m.room.create"`, `"m.room.power_levels"`, `"m.room.join_rules"`, `"m.room.third_party_invite"`, `"m.room.redaction"`, `"m.room.aliases"`, long300}),
-		fc("sender", []string{`""`, `"@"`, `"@:"`, `"x"`, `0`}, kindMenu, idMenu),
-		fc("room_id", []string{`""`, `"!:"`, `"!a:"`, `"!a"`, `0`}, kindMenu, idMenu),
-		fc("state_key", []string{`""`, `"@"`, `"@:"`, `0`}, kindMenu, idMenu),
+		fc("type", []string{`""`, `"m.room.member"`, `"m.room.create"`, `"m.room.power_levels"`, mbPlain}, kindMenu, []string{`"m.room.member"`, `"m.room.create"`, `"m.room.power_levels"`, `"m.room.join_rules"`, `"m.room.third_party_invite"`, `"m.room.redaction"`, `"m.room.aliases"`, long300}),
+		fc("sender", []string{`""`, `"@"`, `"@:"`, `"x"`, `0`, mbUser}, kindMenu, idMenu),
+		fc("room_id", []string{`""`, `"!:"`, `"!a:"`, `"!a"`, `0`, mbRoom}, kindMenu, idMenu),
+		fc("state_key", []string{`""`, `"@"`, `"@:"`, `0`, mbPlain}, kindMenu, idMenu),
 		fc("event_id", []string{`""`, `"$"`, `"$:"`, `0`}, kindMenu, idMenu),
 		fc("redacts", []string{`""`, `0`, `[]`}, kindMenu, idMenu),
 		f("origin", kindMenu, []string{`"a.org"`, `":"`}),
